@@ -6,7 +6,8 @@
         parse2 (fmt2 o a) = Ok a'  /\  erase a' = erase a   and   fmt2 o a' = fmt2 o a
     where [erase] drops positions and comments.  It is observed on the Go side by every run of lib/checks/C22.py
     (ParseTL2File -> Print -> ParseTL2File, AST dumps and texts compared), and it is FALSE as stated: see
-    [C22_fmt2_refuted_single_variant] (finding F8) and the deprecated-field-name finding of the check.
+    the deprecated-field-name finding (F19) of the check; finding F8 (one-variant unions) was repaired in /repo and
+    is kept as [C22_fmt2_old_single_variant_refuted].
 
     Proved here, over all ASTs / all byte strings (the model [fmt2] is tied to the Go printers, [lex2] to the Go
     lexer and [parse_ty] to parseTL2Type by the correspondence run):
@@ -63,16 +64,22 @@ Theorem C22_lex2_fuel_irrelevant : forall s f, (length s <= f)%nat -> lex_fuel f
 Proof. intros s f H. unfold lex2. apply (lex_fuel_enough (length s)); auto. Qed.
 Print Assumptions C22_lex2_fuel_irrelevant.
 
-(** F8: the printed text of a one-variant union is also the printed text of a declaration that is not a union,
-    for both option sets, so no parser can give the union back; [comb_bar] = false says why: on one line the
-    leading bar is not written.  (`f#00000001 => | A;` and `f#00000001 => A;`; the real parser returns the second.) *)
-Theorem C22_fmt2_refuted_single_variant :
-  exists c c', c <> c' /\
-    wf_comb default_options c = true /\ wf_comb default_options c' = true /\
-    (forall o, o = default_options \/ o = canonical_options -> print_comb o c = print_comb o c') /\
-    is_union c = true /\ is_union c' = false /\ comb_bar canonical_options c = false.
-Proof. exact fmt2_refuted_single_variant. Qed.
-Print Assumptions C22_fmt2_refuted_single_variant.
+(** F8, repaired in /repo by commit 3b6a30bc and followed by the model: a union with exactly one variant is always
+    written with its bar, whatever the layout, so its token stream starts like a union ([toks_def true]). *)
+Theorem C22_single_variant_keeps_bar : forall o c, single_union c = true -> comb_bar o c = true.
+Proof. exact single_variant_keeps_bar. Qed.
+Print Assumptions C22_single_variant_keeps_bar.
+
+(** Historical (explains a regression): the union loop as it was before the repair ([print_def_nl_old], the loop
+    without its `len(Variants) == 1` disjunct) printed the one-variant union `| A` as `A`, the text of a struct
+    with one anonymous field -- `f#00000001 => | A;` came back as `f#00000001 => A;`, `a = | A;` was rejected --
+    while the current printer keeps the two apart. *)
+Theorem C22_fmt2_old_single_variant_refuted :
+  exists v f, forall o isret, o = default_options \/ o = canonical_options ->
+    fst (print_def_nl_old o (DUnion [v]) false isret) = fst (print_def_nl o (DStruct [f]) false isret) /\
+    fst (print_def_nl o (DUnion [v]) false isret) <> fst (print_def_nl o (DStruct [f]) false isret).
+Proof. exact fmt2_old_single_variant_refuted. Qed.
+Print Assumptions C22_fmt2_old_single_variant_refuted.
 
 (** Non-vacuity and sanity, by computation. *)
 Definition s (l : list N) : str := l.
@@ -116,7 +123,10 @@ Proof. split; vm_compute; reflexivity. Qed.
 (* the hypotheses exclude what the lexer would not give back: a type called Type, a bare marker *)
 Example ex_not_wf : wf_tref (TApp (TName [] s_Type) false []) = false /\ wf_tref (TApp n_int true []) = false.
 Proof. split; vm_compute; reflexivity. Qed.
-(* F8 on type declarations: `a = | A;` is printed like the (unparseable) struct `a = A;` *)
-Example ex_f8_type : print_comb canonical_options f8_type_union = [97; 32; 61; 32; 65; 59] /\
-  print_comb canonical_options f8_type_struct = [97; 32; 61; 32; 65; 59].
-Proof. split; vm_compute; reflexivity. Qed.
+(* F8 repaired: `a = | A;` is printed `a =  | A;`, `f#00000001 => | A;` as `f#00000001 =>  | A;` and both lex to a
+   token stream with the bar *)
+Example ex_f8_type : print_comb canonical_options f8_type_union = [97; 32; 61; 32; 32; 124; 32; 65; 59] /\
+  print_comb canonical_options f8_union = [102; 35; 48; 48; 48; 48; 48; 48; 48; 49; 32; 61; 62; 32; 32; 124; 32; 65; 59] /\
+  lex2 (print_comb canonical_options f8_union) = Some (toks_comb true f8_union) /\
+  toks_comb true f8_union <> toks_comb true f8_struct.
+Proof. repeat split; vm_compute; congruence. Qed.
